@@ -41,9 +41,9 @@ let cpass_name = function CP1 -> "1" | CP2_bb -> "2-bb" | CP2_vert -> "2-vert" |
 let read_ior () =
   let a = next_bool () in let b = next_bool () in let c = next_bool () in let d = next_bool () in
   let e = next_bool () in let f = next_bool () in let g = next_bool () in let h = next_bool () in
-  let i = next_bool () in let j = next_bool () in let k = next_bool () in
+  let i = next_bool () in let j = next_bool () in let k = next_bool () in let l = next_bool () in
   { centre_far = a; both_scaled = b; in_near = c; circ_far = d; bbox_overlap = e; surf_collide = f;
-    both_convex = g; single_bodies = h; a_has_b_point = i; b_has_a_point = j; bool_nonempty = k }
+    a_convex = g; b_convex = h; single_bodies = i; a_has_b_point = j; b_has_a_point = k; bool_nonempty = l }
 
 let handle (line:string) : string =
   toks := split_ws line;
@@ -53,6 +53,7 @@ let handle (line:string) : string =
   | "COM" -> let e = next_q () in let la = weights () in let a = verts () in
              let mu = weights () in let b = verts () in b2s (common_point e la mu a b)
   | "INS" -> let m = next_q () in let h = halfspaces () in let a = verts () in b2s (inside_halfspaces m h a)
+  | "INC" -> let m = next_q () in let e = next_q () in let h = halfspaces () in let a = verts () in b2s (inside_clear m e h a)
   | "OUT" -> let m = next_q () in let h = halfspaces () in let a = verts () in b2s (vertex_outside m h a)
   | "CASC" -> let (r, p) = intersects_vol (read_ior ()) in b2s r ^ " " ^ ipass_name p
   | "OBJ" -> let pb = next_bool () in let z = next_bool () in let po = next_bool () in
